@@ -189,7 +189,8 @@ def _expand(cmds):
 WIRE = st.tuples(st.sampled_from(["mem", "fs"]),
                  st.lists(st.one_of(st.tuples(st.sampled_from(VERBS), WPATH), st.tuples(st.sampled_from(VERBS), WPATH), ACROSS, MOVED),
                           min_size=3, max_size=25).map(_expand),
-                 st.sampled_from(["/", "/a", "/a/b"]))
+                 # home_path as configured: any absolute spelling ('..' detours, doubled slashes) of a directory in the tree
+                 st.sampled_from(["/", "/a", "/a/b", "/a/b/..", "/a/../a/b", "//a", "/a/./b/", "/../a"]))
 INSIDE = {"/": DIR, "/a": DIR, "/a/b": DIR, "/a/f": b"inside-file", "/f": b"root-file"}
 CANARY = {"u2": DIR, "u2/secret": b"other user's secret", "outside": b"outside the jail"}
 
@@ -233,8 +234,13 @@ async def _wire(loop, backend, cmds, home, tmp, info):
     raw = Raw(HOST, PORT, patience=20)
     await raw.connect()
     await raw.cmd("USER anonymous")
+    _c, _l = await raw.cmd("PWD")
+    expected_home = "/" + "/".join(oracle("/", home))
+    if _l and _l[-1][4:] != '"%s"' % expected_home:
+        raise Violation("C02/wire/pwd_after_login_not_normalised", dict(home_path=home, got=_l[-1][4:], expected=expected_home))
     await raw.cmd("EPSV")
     ctl.log.clear()
+    home = "/" + "/".join(oracle("/", home))  # the working directory after login is the resolved form of home_path
     model_cwd = home
     base_parts = base.parts
     rnfr_addr = None
